@@ -416,6 +416,8 @@ func (u *Universe) Zero(s *Sort) Term {
 		return u.SliceMk(s, True, T("0", SInt), u.Const(q("emptyarr<"+strings.Trim(s.Elem.Name, "|")+">"), u.arraySort(SInt, s.Elem)))
 	case KOpaque:
 		return u.Const(q("zero<"+strings.Trim(s.Name, "|")+">"), s)
+	case KArray:
+		return T("((as const "+s.Name+") "+u.Zero(s.Elem).S+")", s)
 	}
 	panic("zero of " + s.Name)
 }
